@@ -136,7 +136,11 @@ gen(const struct rspec * r)
 				case 0: sb_fmt(&b, "%zx\r\n", n); break;
 				case 1: sb_fmt(&b, "%zX\r\n", n); break;
 				case 2: sb_fmt(&b, "000%zx\r\n", n); break;
-				default: sb_fmt(&b, "%zx;name=val\r\n", n); break;
+				case 3: sb_fmt(&b, "%zx;name=val\r\n", n); break;
+				default:	/* 4: the first chunk-size line is 254 characters long (the longest that fits the client's 256-byte line limit with its CR LF) */
+					if (i == 0) { char ext[260]; int l = snprintf(ext, sizeof(ext), "%zx;x=", n); while (l < 254) ext[l++] = 'e'; ext[l] = 0; sb_str(&b, ext); sb_str(&b, "\r\n"); }
+					else sb_fmt(&b, "%zx\r\n", n);
+					break;
 				}
 				for (q = 0; q < n; q++) { uint8_t x = bodybyte(pos++); sb_add(&b, &x, 1); }
 				sb_str(&b, "\r\n");
@@ -158,10 +162,15 @@ gen(const struct rspec * r)
 	/* cut menu: every offset for short responses, token-boundary offsets for long ones */
 	if (c->resplen <= 250) { for (q = 1; q < c->resplen && c->nmenu < 250; q++) menu_add(c, q); }
 	else {
-		size_t cand[40]; int nc = 0, a, bb; size_t hdrend = 0;
+		size_t cand[48]; int nc = 0, a, bb; size_t hdrend = 0;
 		for (q = 0; q + 4 <= c->resplen; q++) if (memcmp(c->resp + q, "\r\n\r\n", 4) == 0) hdrend = q + 4;	/* last header end */
 		for (a = 1; a <= 4; a++) cand[nc++] = (size_t)a;
 		for (a = -3; a <= 3; a++) { cand[nc++] = 4096 + (size_t)a; if (r->nbuf) cand[nc++] = r->nbuf + (size_t)a; if (hdrend > 4) cand[nc++] = hdrend + (size_t)a; cand[nc++] = c->resplen - 4 + (size_t)a; }
+		if (r->chunkstyle == 4) {	/* around the CR LF of the long chunk-size line, which follows the FIRST blank line */
+			size_t h1 = 0;
+			for (q = 0; q + 4 <= c->resplen; q++) if (memcmp(c->resp + q, "\r\n\r\n", 4) == 0) { h1 = q + 4; break; }
+			for (a = 252; a <= 257; a++) cand[nc++] = h1 + (size_t)a;
+		}
 		for (a = 0; a < nc; a++) { int dup = 0; if (cand[a] == 0 || cand[a] >= c->resplen) continue; for (bb = 0; bb < c->nmenu; bb++) if (c->menu[bb] == cand[a]) dup = 1; if (!dup && c->nmenu < 250) menu_add(c, cand[a]); }
 	}
 	return c;
@@ -209,6 +218,8 @@ gen_wellformed(int thorough)
 		if (!thorough && (i & 1)) continue;
 		gen(&r);
 	}
+	/* a chunk-size line of the maximal supported length, cut around its CR LF, at both reader scales */
+	for (i = 0; i < 2; i++) { r = d; r.nbuf = i ? 0 : 32; r.framing = FR_CHUNKED; r.nchunks = 2; r.chunks[0] = 5; r.chunks[1] = 3; r.bodysize = 8; r.chunkstyle = 4; gen(&r); }
 	/* a body above the 1 MiB wait cap in one chunk (coarse cut menu) */
 	if (thorough) { r = d; r.nbuf = 0; r.framing = FR_CHUNKED; r.nchunks = 1; r.chunks[0] = 1024 * 1024 + 5; r.limit_extra = 99; gen(&r); r.framing = FR_CLEN; r.bodysize = 1024 * 1024 + 5; gen(&r); }
 }
